@@ -165,6 +165,8 @@ void PeriodicExportingMetricReader::DoBackgroundWork()
 bool PeriodicExportingMetricReader::CollectAndExportOnce()
 {
   std::atomic<bool> cancel_export_for_timeout{false};
+  // Set once the collected data has been handed to the exporter in this cycle.
+  std::atomic<bool> exported{false};
 
   std::uint64_t notify_force_flush = force_flush_pending_sequence_.load(std::memory_order_acquire);
   std::unique_ptr<std::thread> task_thread;
@@ -177,7 +179,7 @@ bool PeriodicExportingMetricReader::CollectAndExportOnce()
     auto receiver = sender.get_future();
 
     task_thread.reset(
-        new std::thread([this, &cancel_export_for_timeout, sender = std::move(sender)] {
+        new std::thread([this, &cancel_export_for_timeout, &exported, sender = std::move(sender)] {
 #ifdef ENABLE_THREAD_INSTRUMENTATION_PREVIEW
           if (collect_thread_instrumentation_ != nullptr)
           {
@@ -186,7 +188,7 @@ bool PeriodicExportingMetricReader::CollectAndExportOnce()
           }
 #endif /* ENABLE_THREAD_INSTRUMENTATION_PREVIEW */
 
-          this->Collect([this, &cancel_export_for_timeout](ResourceMetrics &metric_data) {
+          this->Collect([this, &cancel_export_for_timeout, &exported](ResourceMetrics &metric_data) {
             if (cancel_export_for_timeout.load(std::memory_order_acquire))
             {
               OTEL_INTERNAL_LOG_ERROR(
@@ -195,6 +197,7 @@ bool PeriodicExportingMetricReader::CollectAndExportOnce()
               return false;
             }
             this->exporter_->Export(metric_data);
+            exported.store(true, std::memory_order_release);
             return true;
           });
 
@@ -240,8 +243,10 @@ bool PeriodicExportingMetricReader::CollectAndExportOnce()
     task_thread->join();
   }
 
+  // A pending ForceFlush is only complete if this cycle really exported; a cycle that was cancelled
+  // because it timed out must not be reported as a successful flush.
   std::uint64_t notified_sequence = force_flush_notified_sequence_.load(std::memory_order_acquire);
-  while (notify_force_flush > notified_sequence)
+  while (exported.load(std::memory_order_acquire) && notify_force_flush > notified_sequence)
   {
     force_flush_notified_sequence_.compare_exchange_strong(notified_sequence, notify_force_flush,
                                                            std::memory_order_acq_rel);
